@@ -346,6 +346,9 @@ type popBug struct {
 	Comments []int             `json:"comments,omitempty"` // authors of comments
 	Editors  []int             `json:"editors,omitempty"`  // authors of a title change (actors, not participants)
 	Meta     map[string]string `json:"meta,omitempty"`
+	// LateMeta: the metadata is attached to the create operation after the bug was stored (what an exporting
+	// bridge does), not given at creation
+	LateMeta bool `json:"late_meta,omitempty"`
 }
 
 type c12EvalCase struct {
@@ -373,6 +376,7 @@ func genC12Eval(t *rapid.T) c12EvalCase {
 		}
 		if rapid.IntRange(0, 2).Draw(t, "hasMeta") == 0 {
 			b.Meta = map[string]string{"origin": rapid.SampledFrom([]string{"github", "gitlab"}).Draw(t, "origin")}
+			b.LateMeta = rapid.Bool().Draw(t, "lateMeta")
 		}
 		c.Bugs = append(c.Bugs, b)
 	}
@@ -513,7 +517,11 @@ func runC12Eval(tb report.TB, rep *report.Reporter, c c12EvalCase) {
 	tokenOf := map[string]string{}
 	for i, pb := range c.Bugs {
 		tok := fmt.Sprintf("uniq%dz%d", i, c.Seed%997)
-		bc, _, err := rc.Bugs().NewRaw(authors[pb.Author], int64(1000+i), pb.Title+" "+tok, "body text", nil, pb.Meta)
+		createMeta := pb.Meta
+		if pb.LateMeta {
+			createMeta = nil
+		}
+		bc, createOp, err := rc.Bugs().NewRaw(authors[pb.Author], int64(1000+i), pb.Title+" "+tok, "body text", nil, createMeta)
 		if err != nil {
 			tb.Fatalf("harness: %v", err)
 		}
@@ -540,6 +548,15 @@ func runC12Eval(tb report.TB, rep *report.Reporter, c c12EvalCase) {
 		}
 		if err := bc.CommitAsNeeded(); err != nil {
 			tb.Fatalf("harness: %v", err)
+		}
+		if pb.LateMeta && len(pb.Meta) > 0 {
+			// last thing that happens to the bug in this session: no later edit refreshes anything
+			if _, err := bc.SetMetadataRaw(authors[pb.Author], int64(5500+i), createOp.Id(), pb.Meta); err != nil {
+				tb.Fatalf("harness: %v", err)
+			}
+			if err := bc.Commit(); err != nil {
+				tb.Fatalf("harness: %v", err)
+			}
 		}
 	}
 	allIds := sortedIds(rc.Bugs().AllIds())
